@@ -18,7 +18,7 @@
  *            p            a CIF pre-filled from the tokens after `pre`
  *   everything after a `|` token is an annotation for the oracle and is ignored here.
  *
- *   answer:  ps rc=<return value> n=<callback invocations> log=<code>:<line>,…|- ptr=<ok|bad<k>> ops=<b>,<f>,<s>,<l>,<p>,<r> seq=<letters|->
+ *   answer:  ps rc=<return value> n=<callback invocations> log=<code>:<line>,…|- ptr=<ok|bad<k>> ops=<b>,<f>,<s>,<l>,<p>,<r> seq=<call,call,…|->
  *            kinds=<n> cif=<canonical dump|~>
  *            post=<walk rc>,<write rc>,<modify rc>,<destroy rc>|~ [aa=<code>]
  *   aa (policy d only): the first code an ACCEPT-ALL parse of the same input into an equivalent fresh target reports (0 = none)
@@ -34,29 +34,32 @@
  * wraps every call the productions make (the declarations have been read above).  Counted: calls that return CIF_OK while the
  * parse under observation runs — [0] cif_create_block(_internal), [1] cif_container_create_frame(_internal),
  * [2] cif_container_set_value, [3] cif_container_create_loop, [4] cif_loop_add_packet, [5] cif_container_prune.
- * and the ORDER of these calls (`seq=` field, one letter per call).  The model side is the trace of Model/ParserTrace.lean.
+ * and the ORDER of these calls with a digest of their name arguments (`seq=` field).  The model side is the trace of Model/ParserTrace.lean.
  */
 static long ops_cnt[6];
 static int ops_on;
-static char *ops_seq;            /* the successful calls in order of occurrence, one letter each: b f s l p r */
+static char *ops_seq;            /* the successful calls in order of occurrence: a letter b f s l p r and, for b f s the length of the
+                                    code / name in UTF-16 units, for l the number of names */
 static size_t ops_len, ops_cap;
-static int ops_count(int rc, int k) {
+static int ops_count(int rc, int k, long arg) {
     if (ops_on && rc == CIF_OK) {
         ops_cnt[k] += 1;
-        if (ops_len + 2 > ops_cap) { ops_cap = ops_cap ? ops_cap * 2 : 256; ops_seq = (char *) realloc(ops_seq, ops_cap); }
-        ops_seq[ops_len++] = "bfslpr"[k];
-        ops_seq[ops_len] = 0;
+        if (ops_len + 32 > ops_cap) { ops_cap = ops_cap ? ops_cap * 2 : 256; ops_seq = (char *) realloc(ops_seq, ops_cap); }
+        if (arg >= 0) ops_len += (size_t) sprintf(ops_seq + ops_len, "%s%c%ld", ops_len ? "," : "", "bfslpr"[k], arg);
+        else ops_len += (size_t) sprintf(ops_seq + ops_len, "%s%c", ops_len ? "," : "", "bfslpr"[k]);
     }
     return rc;
 }
-#define cif_create_block(c, code, b) ops_count((cif_create_block)((c), (code), (b)), 0)
-#define cif_create_block_internal(c, code, l, b) ops_count((cif_create_block_internal)((c), (code), (l), (b)), 0)
-#define cif_container_create_frame(c, code, f) ops_count((cif_container_create_frame)((c), (code), (f)), 1)
-#define cif_container_create_frame_internal(c, code, l, f) ops_count((cif_container_create_frame_internal)((c), (code), (l), (f)), 1)
-#define cif_container_set_value(c, n, v) ops_count((cif_container_set_value)((c), (n), (v)), 2)
-#define cif_container_create_loop(c, cat, names, l) ops_count((cif_container_create_loop)((c), (cat), (names), (l)), 3)
-#define cif_loop_add_packet(l, p) ops_count((cif_loop_add_packet)((l), (p)), 4)
-#define cif_container_prune(c) ops_count((cif_container_prune)((c)), 5)
+static long ops_ulen(const UChar *u) { return u ? (long) u_strlen(u) : -1; }
+static long ops_nnames(UChar **names) { long n = 0; if (names) while (names[n]) n++; return n; }
+#define cif_create_block(c, code, b) ops_count((cif_create_block)((c), (code), (b)), 0, ops_ulen(code))
+#define cif_create_block_internal(c, code, l, b) ops_count((cif_create_block_internal)((c), (code), (l), (b)), 0, ops_ulen(code))
+#define cif_container_create_frame(c, code, f) ops_count((cif_container_create_frame)((c), (code), (f)), 1, ops_ulen(code))
+#define cif_container_create_frame_internal(c, code, l, f) ops_count((cif_container_create_frame_internal)((c), (code), (l), (f)), 1, ops_ulen(code))
+#define cif_container_set_value(c, n, v) ops_count((cif_container_set_value)((c), (n), (v)), 2, ops_ulen(n))
+#define cif_container_create_loop(c, cat, names, l) ops_count((cif_container_create_loop)((c), (cat), (names), (l)), 3, ops_nnames(names))
+#define cif_loop_add_packet(l, p) ops_count((cif_loop_add_packet)((l), (p)), 4, -1)
+#define cif_container_prune(c) ops_count((cif_container_prune)((c)), 5, -1)
 #include "parser.c"
 
 struct src { const UChar *data; size_t len; size_t pos; };
